@@ -1,7 +1,7 @@
-import MTfitVerif.Model.PostProc
-import MTfitVerif.Real.Inst
+import MTfitVerif.Real.PostProcLemmas
 /-
   C19 — result post-processing (statistics, projections) is consistent with the samples.
+  Property theorems only; helper lemmas live in `Real/PostProcLemmas.lean`.
 -/
 namespace MTfitVerif.C19
 open MTfitVerif MTfitVerif.PostProc Real
@@ -11,44 +11,48 @@ open MTfitVerif MTfitVerif.PostProc Real
 theorem select_aligned {β γ : Type} (l₁ : List β) (l₂ : List γ) (h : l₁.length = l₂.length) (idx : List Nat)
     (r₁ : List β) (r₂ : List γ) (h₁ : select l₁ idx = some r₁) (h₂ : select l₂ idx = some r₂) :
     select (List.zip l₁ l₂) idx = some (List.zip r₁ r₂) := by
-  sorry
+  have _ := h
+  exact select_zip l₁ l₂ idx r₁ r₂ h₁ h₂
 
 theorem select_length {β : Type} (l : List β) (idx : List Nat) (r : List β) (h : select l idx = some r) :
-    r.length = idx.length ∧ ∀ k (hk : k < idx.length), r[k]? = l[idx[k]]? := by
-  sorry
+    r.length = idx.length ∧ ∀ k (hk : k < idx.length), r[k]? = l[idx[k]]? :=
+  select_spec l idx r h
 
 /-- the mean is the probability-weighted average: it lies between the smallest and largest value
     of every component, reproduces a constant component, and ignores a common rescaling of the
     probabilities -/
 theorem wmean_const (ps : List ℝ) (v : ℝ) (hpos : 0 < ps.sum) : wmean ps (ps.map fun _ => v) = v := by
-  sorry
+  rw [wmean_eq, wsum_const]
+  field_simp
 
 theorem wmean_scale (ps ms : List ℝ) {k : ℝ} (hk : k ≠ 0) : wmean (ps.map (k * ·)) ms = wmean ps ms := by
-  sorry
+  rw [wmean_eq, wmean_eq, wsum_scale, List.sum_map_mul_left, mul_div_mul_left _ _ hk, List.map_id']
 
 theorem wmean_bounds (ps ms : List ℝ) (hlen : ps.length = ms.length) (hp : ∀ p ∈ ps, 0 ≤ p) (hpos : 0 < ps.sum)
     (lo hi : ℝ) (hlo : ∀ m ∈ ms, lo ≤ m) (hhi : ∀ m ∈ ms, m ≤ hi) : lo ≤ wmean ps ms ∧ wmean ps ms ≤ hi := by
-  sorry
+  obtain ⟨h1, h2⟩ := wsum_bounds lo hi ms ps hlen hp hlo hhi
+  rw [wmean_eq]
+  exact ⟨(le_div_iff₀ hpos).mpr h1, (div_le_iff₀ hpos).mpr h2⟩
 
 /-- the maximum-probability selection returns exactly the samples attaining the maximum -/
 theorem maxProbIdx_spec (ps : List ℝ) (i : Nat) :
-    i ∈ maxProbIdx ps ↔ i < ps.length ∧ ∀ j, j < ps.length → ps.getD j 0 ≤ ps.getD i 0 := by
-  sorry
+    i ∈ maxProbIdx ps ↔ i < ps.length ∧ ∀ j, j < ps.length → ps.getD j 0 ≤ ps.getD i 0 :=
+  mem_maxProbIdx ps i
 
-theorem maxProbIdx_nonempty (ps : List ℝ) (h : ps ≠ []) : maxProbIdx ps ≠ [] := by
-  sorry
+theorem maxProbIdx_nonempty (ps : List ℝ) (h : ps ≠ []) : maxProbIdx ps ≠ [] :=
+  maxProbIdx_ne_nil ps h
 
 /-- collapsing a chain to unique samples: every distinct tensor appears exactly once, in sorted
     order, with its multiplicity; the counts add up to the chain length -/
-theorem uniqueCounts_sorted (l : List Nat) : ((uniqueCounts l).map (·.1)).Pairwise (· < ·) := by
-  sorry
+theorem uniqueCounts_sorted (l : List Nat) : ((uniqueCounts l).map (·.1)).Pairwise (· < ·) :=
+  uniqueCounts_keys_sorted l
 
 theorem uniqueCounts_count (l : List Nat) (x : Nat) :
-    ((uniqueCounts l).lookup x).getD 0 = l.count x ∧ (x ∈ (uniqueCounts l).map (·.1) ↔ x ∈ l) := by
-  sorry
+    ((uniqueCounts l).lookup x).getD 0 = l.count x ∧ (x ∈ (uniqueCounts l).map (·.1) ↔ x ∈ l) :=
+  ⟨uniqueCounts_lookup l x, mem_uniqueCounts_keys l x⟩
 
-theorem uniqueCounts_sum (l : List Nat) : ((uniqueCounts l).map (·.2)).sum = l.length := by
-  sorry
+theorem uniqueCounts_sum (l : List Nat) : ((uniqueCounts l).map (·.2)).sum = l.length :=
+  uniqueCounts_counts_sum l
 
 /-! ### projections of a unit vector at angle `t` from the downward axis (`z = cos t`) -/
 
@@ -56,28 +60,55 @@ theorem uniqueCounts_sum (l : List Nat) : ((uniqueCounts l).map (·.2)).sum = l.
 theorem equal_area_radius {x y z : ℝ} (hu : x^2 + y^2 + z^2 = 1) (hz : 0 ≤ z) (X Y : ℝ)
     (h : project true true false false x y z = some (X, Y)) :
     X^2 + Y^2 = 2 * (1 - z) ∧ (∀ t, z = Real.cos t → X^2 + Y^2 = (2 * Real.sin (t / 2))^2) := by
-  sorry
+  rw [project_lower_shown true false hz] at h
+  simp only [if_true, Option.some.injEq, Prod.mk.injEq] at h
+  obtain ⟨rfl, rfl⟩ := h
+  have hpos : (0 : ℝ) < 1 + z := by linarith
+  have hsq : Real.sqrt (2 / (1 + z)) ^ 2 = 2 / (1 + z) := Real.sq_sqrt (by positivity)
+  have key : (x * Real.sqrt (2 / (1 + z))) ^ 2 + (y * Real.sqrt (2 / (1 + z))) ^ 2 = 2 * (1 - z) := by
+    rw [mul_pow, mul_pow, hsq]
+    have hxy : x ^ 2 + y ^ 2 = (1 - z) * (1 + z) := by linarith [hu]
+    field_simp
+    linear_combination hxy
+  refine ⟨key, fun t ht => ?_⟩
+  rw [key, ht, two_sub_two_cos]
 
 /-- equal-angle (stereographic) projection: radius `tan(t/2)` -/
 theorem equal_angle_radius {x y z : ℝ} (hu : x^2 + y^2 + z^2 = 1) (hz : 0 ≤ z) (X Y : ℝ)
     (h : project false true false false x y z = some (X, Y)) :
     X^2 + Y^2 = (1 - z) / (1 + z) ∧ (∀ t, z = Real.cos t → 0 ≤ t → t ≤ π / 2 → X^2 + Y^2 = (Real.tan (t / 2))^2) := by
-  sorry
+  rw [project_lower_shown false false hz] at h
+  simp only [Bool.false_eq_true, if_false, Option.some.injEq, Prod.mk.injEq] at h
+  obtain ⟨rfl, rfl⟩ := h
+  have hpos : (0 : ℝ) < 1 + z := by linarith
+  have key : (x * (1 / (1 + z))) ^ 2 + (y * (1 / (1 + z))) ^ 2 = (1 - z) / (1 + z) := by
+    have hxy : x ^ 2 + y ^ 2 = (1 - z) * (1 + z) := by linarith [hu]
+    field_simp
+    linear_combination hxy
+  refine ⟨key, fun t ht h0 h1 => ?_⟩
+  rw [key, ht, tan_half_sq t h0 h1]
 
 /-- both projections preserve azimuth: the image is a positive multiple of `(x, y)` -/
 theorem projection_preserves_azimuth (area : Bool) {x y z : ℝ} (hz : 0 ≤ z) (X Y : ℝ)
     (h : project area true false false x y z = some (X, Y)) : ∃ k : ℝ, 0 < k ∧ X = k * x ∧ Y = k * y := by
-  sorry
+  rw [project_lower_shown area false hz] at h
+  simp only [Option.some.injEq, Prod.mk.injEq] at h
+  obtain ⟨rfl, rfl⟩ := h
+  have hpos : (0 : ℝ) < 1 + z := by linarith
+  refine ⟨if area then Real.sqrt (2 / (1 + z)) else 1 / (1 + z), ?_, mul_comm _ _, mul_comm _ _⟩
+  cases area
+  · simp only [Bool.false_eq_true, if_false]; positivity
+  · simp only [if_true]; positivity
 
 /-- an upper-hemisphere vector is shown at its antipode (with back-projection) or not at all -/
 theorem upper_hemisphere_antipode_or_hidden (area : Bool) {x y z : ℝ} (hz : z < 0) :
     project area true false false x y z = none ∧
-    project area true false true x y z = project area true false false (-x) (-y) (-z) := by
-  sorry
+    project area true false true x y z = project area true false false (-x) (-y) (-z) :=
+  ⟨project_upper area hz, project_upper_back area hz⟩
 
 /-- lower-hemisphere vectors are always shown -/
 theorem lower_hemisphere_shown (area bp : Bool) {x y z : ℝ} (hz : 0 ≤ z) :
     (project area true false bp x y z).isSome = true := by
-  sorry
+  rw [project_lower_shown area bp hz]; rfl
 
 end MTfitVerif.C19
